@@ -24,6 +24,9 @@ VALS = ["val:nan", "val:inf", "val:-inf", "val:complex", "val:vec2", "val:list2"
 HE = ["form:scalar", "form:triple", "form:listpair", "form:single", "sd:zero", "sd:neg", "sd:nan", "sd:inf", "sd:-inf", "sd:complex", "sd:vec2", "sd:arrneg"]
 
 
+NCHUNK = 8
+
+
 def cases(tier, seed):
     out = []
     n = 32 if tier == "quick" else 48
@@ -36,7 +39,13 @@ def cases(tier, seed):
         spec = gen.make_spec(rng, D=int(rng.choice([1, 2, 3])), geom=geom, x0mode=str(rng.choice(["in", "none"])) if cons == "none" else "in",
                              land=str(rng.choice(["quad", "sphere", "l1"])), where="in", mode=mode, cons=cons, options=opts, sigma=0.3,
                              noise_src="private", max_fun_evals=int(rng.choice([42, 50, 60])) if mode == "det" else int(rng.choice([50, 60])))
-        out.append({"spec": spec, "positions": "2perphase" if tier == "quick" else "all", "pseed": int(rng.integers(1 << 30))})
+        pseed = int(rng.integers(1 << 30))
+        if tier == "quick":
+            out.append({"spec": spec, "positions": "2perphase", "pseed": pseed})
+        else:
+            # every k, split into NCHUNK interleaved position classes so that the shards stay balanced
+            for j in range(NCHUNK):
+                out.append({"spec": spec, "positions": "all", "chunk": [j, NCHUNK], "pseed": pseed})
     # specified noise + repeated points: the faulty call is a RE-OBSERVATION of an already logged point (merge path)
     for j in range(4 if tier == "quick" else 12):
         rng = gen.rng_for(seed, "C10", 5000 + j)
@@ -73,7 +82,8 @@ def run_case(case):
         ks = repeat_ks[:4] if case.get("positions") == "repeats" else []
         phases = [("repeat:" + p) if i in set(repeat_ks) else p for i, p in enumerate(phases)]
     elif case["positions"] == "all":
-        ks = list(range(N))
+        j, nch = case.get("chunk") or [0, 1]
+        ks = list(range(j, N, nch))
     else:
         ks = []
         for ph in sorted(set(phases)):
